@@ -42,4 +42,11 @@ theorem t_q_slerp_near (a b : Quat K) (t : K) (h0 : ¬ Quat.dot a b < 0) (h1 : L
       .okG (Quat.slerp a b t).toList
         [.lt (Quat.dot a b) 0 false, .lt Lits.thr (Quat.dot a b) true, .lt (Quat.dot a b) 0 false] := by
   simp only [Quat.slerp, Quat.nlerp, h0, h1, decide_false, if_false, if_true, Bool.false_eq_true]; tr_auto_nf
+/-- near with a negative dot product: the far end is negated first, then `nlerp` (whose own test of the sign is then false) -/
+theorem t_q_slerp_near_neg (a b : Quat K) (t : K) (h0 : Quat.dot a b < 0) (h1 : Lits.thr < -Quat.dot a b)
+    (h2 : ¬ Quat.dot a (-b) < 0) :
+    t_q_slerp_near_neg (envL (a.toList ++ b.toList ++ [t])) =
+      .okG (Quat.slerp a b t).toList
+        [.lt (Quat.dot a b) 0 true, .lt Lits.thr (-Quat.dot a b) true, .lt (Quat.dot a (-b)) 0 false] := by
+  simp only [Quat.slerp, Quat.nlerp, h0, h1, h2, decide_true, if_true, if_false]; tr_auto_nf
 end Cg.Trace.C14
